@@ -38,7 +38,10 @@ ASSUMPTIONS = [
 SHARD_TIMEOUT = {'quick': 600, 'thorough': 3000}
 NSHARDS = {'quick': 16, 'thorough': 32}
 
-CSTYLE = ['%s', '%10s', '%-9s', '%.3s', '%5.2s', 'v=%s', '%r', '%a', '%8r', '%d', '%f', '']
+CSTYLE = ['%s', '%10s', '%-9s', '%.3s', '%5.2s', 'v=%s', '%r', '%a', '%8r', '%d', '%f', '',
+          # the template author's own markup around the value (the only template text with "<": judged with the
+          # literal tags of the format removed from the output, see c04_util.judge)
+          '<q>%s</q>', 'p<q/>%s']
 CFMT_QUICK = ['s', '10s', '.3s', '5.2s', '9.9s', 'r', 'a', '12r', 'd', 'f', 'c', 'x', 'i', 'e', 'g']
 ETCS = [None, '', '..', 'ETC']
 EXPRS = list(U.EXPR_MARKED)
